@@ -115,4 +115,74 @@ theorem bytes_unpack (f : Nat) :
   · simp only [exponentBase, h5, h4]; rfl
   · simp only [exponentRadix, h6, h4]; rfl
 
+/-! ## (b) `format_error_impl` = first violated documented constraint -/
+
+theorem isValidRadix_spec (feats : Features) (r : Nat) :
+    isValidRadix feats r = decide (RadixSupported feats r) := by
+  unfold isValidRadix RadixSupported
+  by_cases hr : feats.radix = true
+  · simp [hr]
+  · by_cases hp : feats.powerOfTwo = true <;> simp [hr, hp, Bool.beq_eq_decide_eq, Bool.or_assoc]
+
+theorem radixSupported_range {feats : Features} {r : Nat} (h : RadixSupported feats r) : 2 ≤ r ∧ r ≤ 36 := by
+  unfold RadixSupported at h
+  by_cases hr : feats.radix = true
+  · simp [hr] at h; omega
+  · by_cases hp : feats.powerOfTwo = true <;> simp [hr, hp] at h <;> omega
+
+/-- `is_valid_optional_control_radix` accepts exactly 0 and the documented control characters
+(all 37 × 256 cases, kernel-evaluated) -/
+theorem control_spec : ∀ r < 37, ∀ v < 256,
+    isValidOptionalControlRadix r v = decide (v = 0 ∨ ControlChar r v) := by
+  decide +kernel
+
+theorem and_mask4 (f a b c d : Nat) (hab : a < b) (hbc : b < c) (hcd : c < d) :
+    f &&& (2 ^ a ||| 2 ^ b ||| 2 ^ c ||| 2 ^ d) =
+      (f / 2 ^ a % 2) * 2 ^ a + (f / 2 ^ b % 2) * 2 ^ b + (f / 2 ^ c % 2) * 2 ^ c + (f / 2 ^ d % 2) * 2 ^ d := by
+  rw [Nat.and_or_distrib_left, Nat.and_or_distrib_left, Nat.and_or_distrib_left,
+    and_two_pow, and_two_pow, and_two_pow, and_two_pow]
+  have pa : 2 ^ a * 2 ≤ 2 ^ b := by rw [← Nat.pow_succ]; exact Nat.pow_le_pow_right (by omega) hab
+  have pb : 2 ^ b * 2 ≤ 2 ^ c := by rw [← Nat.pow_succ]; exact Nat.pow_le_pow_right (by omega) hbc
+  have pc : 2 ^ c * 2 ≤ 2 ^ d := by rw [← Nat.pow_succ]; exact Nat.pow_le_pow_right (by omega) hcd
+  have qa : 0 < 2 ^ a := Nat.two_pow_pos a
+  have xa : f / 2 ^ a % 2 ≤ 1 := by omega
+  have xb : f / 2 ^ b % 2 ≤ 1 := by omega
+  have xc : f / 2 ^ c % 2 ≤ 1 := by omega
+  have h1 : (f / 2 ^ a % 2) * 2 ^ a < 2 ^ b := by
+    rcases Nat.le_one_iff_eq_zero_or_eq_one.mp xa with h | h <;> rw [h] <;> omega
+  have h2 : (f / 2 ^ a % 2) * 2 ^ a + (f / 2 ^ b % 2) * 2 ^ b < 2 ^ c := by
+    rcases Nat.le_one_iff_eq_zero_or_eq_one.mp xa with h | h <;>
+    rcases Nat.le_one_iff_eq_zero_or_eq_one.mp xb with h' | h' <;> rw [h, h'] <;> omega
+  have h3 : (f / 2 ^ a % 2) * 2 ^ a + (f / 2 ^ b % 2) * 2 ^ b + (f / 2 ^ c % 2) * 2 ^ c < 2 ^ d := by
+    rcases Nat.le_one_iff_eq_zero_or_eq_one.mp xa with h | h <;>
+    rcases Nat.le_one_iff_eq_zero_or_eq_one.mp xb with h' | h' <;>
+    rcases Nat.le_one_iff_eq_zero_or_eq_one.mp xc with h'' | h'' <;> rw [h, h', h''] <;> omega
+  rw [or_mul_two_pow _ _ _ h1, or_mul_two_pow _ _ _ h2, or_mul_two_pow _ _ _ h3]
+
+/-- `(format & GROUP_MASK) == GROUP_CONSECUTIVE`: consecutive set, no position flag set -/
+theorem consec_eq (f a b c d : Nat) (hab : a < b) (hbc : b < c) (hcd : c < d) :
+    ((f &&& (2 ^ a ||| 2 ^ b ||| 2 ^ c ||| 2 ^ d)) == 2 ^ d) =
+      (decide (f / 2 ^ d % 2 = 1) && !decide (f / 2 ^ a % 2 = 1) && !decide (f / 2 ^ b % 2 = 1) &&
+        !decide (f / 2 ^ c % 2 = 1)) := by
+  rw [and_mask4 f a b c d hab hbc hcd]
+  have pa : 2 ^ a * 2 ≤ 2 ^ b := by rw [← Nat.pow_succ]; exact Nat.pow_le_pow_right (by omega) hab
+  have pb : 2 ^ b * 2 ≤ 2 ^ c := by rw [← Nat.pow_succ]; exact Nat.pow_le_pow_right (by omega) hbc
+  have pc : 2 ^ c * 2 ≤ 2 ^ d := by rw [← Nat.pow_succ]; exact Nat.pow_le_pow_right (by omega) hcd
+  have qa : 0 < 2 ^ a := Nat.two_pow_pos a
+  have xa : f / 2 ^ a % 2 = 0 ∨ f / 2 ^ a % 2 = 1 := by omega
+  have xb : f / 2 ^ b % 2 = 0 ∨ f / 2 ^ b % 2 = 1 := by omega
+  have xc : f / 2 ^ c % 2 = 0 ∨ f / 2 ^ c % 2 = 1 := by omega
+  have xd : f / 2 ^ d % 2 = 0 ∨ f / 2 ^ d % 2 = 1 := by omega
+  rcases xa with h | h <;> rcases xb with h' | h' <;> rcases xc with h'' | h'' <;> rcases xd with h''' | h''' <;>
+    rw [h, h', h'', h'''] <;> simp <;> omega
+
+theorem chunk6 (f s : Nat) (a0 a1 a2 a3 a4 a5 : Nat) (h0 : f / 2 ^ (s+0) % 2 = a0) (h1 : f / 2 ^ (s+1) % 2 = a1)
+    (h2 : f / 2 ^ (s+2) % 2 = a2) (h3 : f / 2 ^ (s+3) % 2 = a3) (h4 : f / 2 ^ (s+4) % 2 = a4)
+    (h5 : f / 2 ^ (s+5) % 2 = a5) :
+    f / 2 ^ s % 2 ^ 6 = a0 + 2 * a1 + 4 * a2 + 8 * a3 + 16 * a4 + 32 * a5 := by
+  have e : ∀ k, f / 2 ^ (s + k) = f / 2 ^ s / 2 ^ k := fun k => by rw [Nat.pow_add, Nat.div_div_eq_div_mul]
+  rw [e] at h0 h1 h2 h3 h4 h5
+  generalize f / 2 ^ s = g at *
+  omega
+
 end LexVerif.Props.C18
